@@ -230,6 +230,7 @@ func main() {
 					continue
 				}
 				results = append(results, w.verifyFunc(sel, sweepCon(sel)))
+				sweepSels[sel] = true
 				sweepCount++
 			}
 		}
@@ -329,6 +330,7 @@ func failHard(verif, prop, tier string, seed int, why string, t0 time.Time) {
 
 var theWorld *World
 var sweepGone []string
+var sweepSels = map[string]bool{}
 var sweepCount int
 
 func report(verif, prop, tier string, seed int, results []*FuncResult, obs []*Obligation, loadSecs, genSecs float64, to time.Duration, t0 time.Time) {
@@ -534,11 +536,20 @@ func report(verif, prop, tier string, seed int, results []*FuncResult, obs []*Ob
 	if prop == "C01" {
 		// the sweep: which hand-written functions of /repo are NOT under any contract
 		without, generated := theWorld.uncontracted()
+		if len(sweepSels) > 0 {
+			var rest []string
+			for _, n := range without {
+				if !sweepSels[n] {
+					rest = append(rest, n)
+				}
+			}
+			without = rest
+		}
 		cov["functions_without_contract"] = without
 		cov["generated_functions_outside_contracts"] = generated
 		cov["zero_annotation_sweep"] = map[string]any{"functions_verified_against_the_empty_contract": sweepCount, "listed_but_no_longer_present": sweepGone,
 			"meaning": "functions of /verif/contracts/sweep.list have no contract; they are verified for arbitrary well-typed arguments with no precondition, safety obligations only"}
-		as = append(as, fmt.Sprintf("%d hand-written functions of /repo have no contract (listed in coverage.functions_without_contract): their panic-freedom is NOT decided; %d functions of generated files (expressions/scanner.go, expressions/y.go) are outside the contracts", len(without), len(generated)))
+		as = append(as, fmt.Sprintf("%d hand-written functions of /repo have neither a contract nor a place in the sweep list (listed in coverage.functions_without_contract): their panic-freedom is NOT decided; %d functions of generated files (expressions/scanner.go, expressions/y.go) are outside the contracts", len(without), len(generated)))
 	}
 	if bounded := loadBoundedNote(verif, prop); bounded != nil {
 		cov["bounded"] = bounded
